@@ -35,12 +35,12 @@ func genIOCase(r *sim.Rng, tier string, idx int) *IOCase {
 		var w *WCase
 		switch r.Intn(3) {
 		case 0:
-			w = genXZWCase(r, "quick", 0, false)
+			w = genXZWCase(r, "src", 0, false)
 		case 1:
-			w = &genLZWCase(r, "quick", false, false).W
+			w = &genLZWCase(r, "src", false, false).W
 			w.Sink.ByteWriter = r.Chance(1, 4)
 		default:
-			w = genL2WCase(r, "quick", false)
+			w = genL2WCase(r, "src", false)
 		}
 		lim := 3000
 		if r.Chance(1, 8) {
